@@ -604,12 +604,19 @@ func checkC15(c C15Case, o *h.Obs) *h.Fail {
 			if abs.Cmp(maxR) > 0 && !math.IsInf(wf, 0) {
 				o.Label("zone:above-max-below-half-ulp")
 				if math.IsInf(gf, 0) {
+					// the documented saturation: sign and accuracy must be those of an overflow
+					if want := map[bool]model.Acc{false: model.Above, true: model.Below}[xv.Neg]; math.Signbit(gf) != xv.Neg || model.Acc(ga) != want {
+						return h.Failf("acc", "%s(%v) = (%v, %v): saturation beyond the largest float must be (%sInf, %v)", c.Op, xv, gf, model.Acc(ga), map[bool]string{false: "+", true: "-"}[xv.Neg], want)
+					}
 					return nil
 				}
 			}
 			if abs.Cmp(minR) < 0 && wf != 0 {
 				o.Label("zone:below-smallest-above-half")
 				if gf == 0 {
+					if want := map[bool]model.Acc{false: model.Below, true: model.Above}[xv.Neg]; math.Signbit(gf) != xv.Neg || model.Acc(ga) != want {
+						return h.Failf("acc", "%s(%v) = (%v, %v): saturation below the smallest float must be a zero of x's sign with accuracy %v", c.Op, xv, gf, model.Acc(ga), want)
+					}
 					return nil
 				}
 			}
